@@ -50,6 +50,8 @@ ASSUMPTIONS = [
     "second rendering: the declared model of the remaining operations is unchanged by the first assembly (assembling "
     "does not alter the user's objects); every operation touched by it is chopped in all directions",
     "modify_patch on a name that owns no face of a surviving operation is not executed (outcome not specified)",
+    "round shapes may be scaled about their first axis point after creation (scale() or transform([Scaling])): the "
+    "declared radius / length are the scaled ones; the sphere's searchableSphere must have the scaled radius",
     "Hemisphere: only shape-level patches, zones and corner projections are scripted (its lofts share Face objects)",
     "a script built from valid arguments must run and write; an exception is reported as script-failed / write-failed",
 ]
@@ -389,9 +391,11 @@ class Checker:
         for e in hemis:
             ent = case["entities"][e]
             c = np.asarray(ent["ap1"]) + np.asarray(ent.get("translate", [0, 0, 0]), dtype=float)
-            match = [nm for nm in auto if _sphere_matches(bmd.geometry[nm], c, ent["radius"], self.half)]
+            radius = xsc.final_size(ent)["radius"]
+            match = [nm for nm in auto if _sphere_matches(bmd.geometry[nm], c, radius, self.half)]
             if not match:
-                self.fail("sphere-geometry", f"no searchableSphere with centre {tuple(c)} radius {ent['radius']} among {auto}")
+                self.fail("sphere-geometry", f"no searchableSphere with centre {tuple(c)} radius {radius} among "
+                          f"{[(nm, bmd.geometry[nm]) for nm in auto]}", scaled=bool(ent.get("scaled")))
             for label in sorted(self.sphere_face_label.get(e, set())):
                 if label not in bmd.geometry:
                     self.fail("geometry-undefined", f"the sphere's sides are projected to {label!r}, which the geometry section "
@@ -483,6 +487,9 @@ def check_program(case, ctx: Ctx) -> None:
     ctx.label("finish:" + case.get("finish", "write"))
     if case.get("finish", "write") in ("clear+assemble", "backport") and ck.bmd.faces:
         ctx.label("reassembled-with-projected-faces")
+    for ent in case["entities"]:
+        if ent.get("scaled"):
+            ctx.label("scaled:" + ent["kind"])
     if case.get("shift"):
         ctx.label("far-from-origin" if max(abs(v) for v in case["shift"]) >= 1e5 else "shift-1e3")
     if m.skip_modify:
